@@ -150,12 +150,13 @@ pub fn execute(scen: &'static Scenario, input: RunInput) -> RunOutput {
     crate::vclock::activate();
     let sched = SchedMode::for_run(&input);
     let reorderings = std::rc::Rc::new(std::cell::Cell::new(0u64));
+    let sched_sig = std::rc::Rc::new(std::cell::Cell::new(0u64));
     let mut builder = tokio::runtime::Builder::new_current_thread();
     builder
         .enable_time()
         .start_paused(true)
         .rng_seed(tokio::runtime::RngSeed::from_bytes(&seed.to_le_bytes()));
-    sched.install(seed, &mut builder, reorderings.clone());
+    sched.install(seed, &mut builder, reorderings.clone(), sched_sig.clone());
     let rt = builder.build().unwrap();
     let run = scen.run;
     let result = std::panic::catch_unwind(std::panic::AssertUnwindSafe(|| {
@@ -227,6 +228,7 @@ pub fn execute(scen: &'static Scenario, input: RunInput) -> RunOutput {
     if reorderings.get() > 0 {
         out.nontrivial = true;
     }
+    out.sched_sig = sched_sig.get();
     out
 }
 
@@ -280,7 +282,7 @@ impl SchedMode {
             SchedMode::Random
         }
     }
-    fn install(self, seed: u64, builder: &mut tokio::runtime::Builder, reorderings: std::rc::Rc<std::cell::Cell<u64>>) {
+    fn install(self, seed: u64, builder: &mut tokio::runtime::Builder, reorderings: std::rc::Rc<std::cell::Cell<u64>>, sig: std::rc::Rc<std::cell::Cell<u64>>) {
         use rand::Rng;
         if self == SchedMode::Fifo {
             tokio::runtime::sim_sched::set_picker(None);
@@ -291,7 +293,7 @@ impl SchedMode {
         let ei = [1u32, 2, 3, 5, 8, 13, 31, 61][rng.gen_range(0..8)];
         builder.event_interval(ei);
         let p_swap = [1.0 / 64.0, 1.0 / 16.0, 1.0 / 4.0][rng.gen_range(0..3)];
-        tokio::runtime::sim_sched::set_picker(Some(Box::new(SeededPicker { mode: self, rng, p_swap, reorderings })));
+        tokio::runtime::sim_sched::set_picker(Some(Box::new(SeededPicker { mode: self, rng, p_swap, reorderings, sig, decisions: 0 })));
     }
 }
 
@@ -300,6 +302,22 @@ struct SeededPicker {
     rng: rand::rngs::StdRng,
     p_swap: f64,
     reorderings: std::rc::Rc<std::cell::Cell<u64>>,
+    /// running hash over (decision index, queue length, choice) of every out-of-order decision
+    sig: std::rc::Rc<std::cell::Cell<u64>>,
+    decisions: u64,
+}
+
+impl SeededPicker {
+    fn note(&mut self, len: usize, k: usize) {
+        self.decisions += 1;
+        if k != 0 {
+            self.reorderings.set(self.reorderings.get() + 1);
+            let mut h = crate::choice::RunHash(self.sig.get() ^ 0xcbf2_9ce4_8422_2325);
+            h.push_u64(self.decisions);
+            h.push_u64(((len as u64) << 32) | k as u64);
+            self.sig.set(h.0);
+        }
+    }
 }
 
 impl tokio::runtime::sim_sched::Picker for SeededPicker {
@@ -323,9 +341,7 @@ impl tokio::runtime::sim_sched::Picker for SeededPicker {
             }
             SchedMode::Random => self.rng.gen_range(0..len),
         };
-        if k != 0 {
-            self.reorderings.set(self.reorderings.get() + 1);
-        }
+        self.note(len, k);
         k
     }
     fn defer_main(&mut self, _queued: usize) -> bool {
@@ -336,9 +352,7 @@ impl tokio::runtime::sim_sched::Picker for SeededPicker {
             SchedMode::Lifo => self.rng.gen_bool(0.25),
             SchedMode::Random => self.rng.gen_bool(0.5),
         };
-        if d {
-            self.reorderings.set(self.reorderings.get() + 1);
-        }
+        self.note(usize::MAX >> 33, d as usize);
         d
     }
 }
@@ -416,6 +430,7 @@ struct Agg {
     evaluations: u64,
     sigs: HashSet<u64>,
     nontrivial_sigs: HashSet<u64>,
+    sched_sigs: HashSet<u64>,
     counts: BTreeMap<String, u64>,
     probes: BTreeMap<String, u64>,
     sim_ns: u128,
@@ -521,6 +536,9 @@ pub fn run_batch(scens: &[&'static Scenario], opts: &BatchOpts) -> BatchResult {
                             let mut a = agg.lock().unwrap();
                             a.evaluations += 1;
                             a.sigs.insert(out.sig);
+                            if out.sched_sig != 0 {
+                                a.sched_sigs.insert(out.sched_sig);
+                            }
                             if out.nontrivial {
                                 a.nontrivial_sigs.insert(out.sig);
                             }
@@ -651,6 +669,7 @@ pub fn run_batch(scens: &[&'static Scenario], opts: &BatchOpts) -> BatchResult {
             "distinct_signatures": a.sigs.len(),
             "distinct_nontrivial_signatures": a.nontrivial_sigs.len(),
             "distinct_configurations": a.configs.len(),
+            "distinct_task_orders": a.sched_sigs.len(),
             "simulated_seconds": (a.sim_ns / 1_000_000_000) as u64,
             "rule": scen.rule,
         }));
@@ -669,6 +688,9 @@ pub fn run_batch(scens: &[&'static Scenario], opts: &BatchOpts) -> BatchResult {
             *agg_total.probes.entry(k).or_default() += v;
         }
         agg_total.sim_ns += a.sim_ns;
+        for s in &a.sched_sigs {
+            agg_total.sched_sigs.insert(*s ^ crate::choice::fnv(scen.name.as_bytes()));
+        }
         for (i, s) in a.samples.into_iter().enumerate() {
             if i < 2 {
                 agg_total.samples.push(json!({"scenario": scen.name, "run": s}));
@@ -700,6 +722,7 @@ pub fn run_batch(scens: &[&'static Scenario], opts: &BatchOpts) -> BatchResult {
             "evaluations": agg_total.evaluations,
             "distinct_nontrivial": agg_total.nontrivial_sigs.len(),
             "distinct_signatures": agg_total.sigs.len(),
+            "distinct_task_orders": agg_total.sched_sigs.len(),
             "rule": rule,
             "samples": agg_total.samples,
             "runs_per_hour": if wall > 0.0 { (agg_total.evaluations as f64 / wall * 3600.0) as u64 } else { 0 },
